@@ -337,10 +337,17 @@ impl State {
             return;
         }
         let t = en[k];
-        // spin detection: the same subject (non-harness) thread keeps running, it is the only
+        // spin detection: the same subject (non-harness) thread keeps polling, it is the only
         // enabled one, and the world (all objects + every thread's pending op) recurs; a harness
         // thread that loops is caught by the step horizon instead
-        if self.last_tid == Some(t) && en.len() == 1 && !self.threads[t].harness {
+        // only polling operations count: an operation that acquires or sends something is progress
+        // (a long loop of look-ups revisits the same lock states without spinning)
+        let polling = match &self.threads[t].status {
+            Status::AtPoint(Op::TryRecv(_)) | Status::AtPoint(Op::SelectReady(_)) => true,
+            Status::AtPoint(Op::Yield(tag)) => tag.starts_with("try-") || *tag == "select-new",
+            _ => false,
+        };
+        if self.last_tid == Some(t) && en.len() == 1 && !self.threads[t].harness && polling {
             let h = self.world_hash();
             let c = self.spin_seen.entry(h).or_insert(0);
             *c += 1;
